@@ -21,6 +21,8 @@ import (
 	"net/mail"
 	"os"
 	"os/exec"
+	"sort"
+	"strconv"
 	"strings"
 	"sync"
 	"time"
@@ -203,9 +205,13 @@ func child12(period string, n int) {
 	}
 	left, young := 0, 0
 	now := time.Now()
+	var surv []int
 	st2.VisitMailboxes(func(ms []storage.Message) bool {
 		for _, m := range ms {
 			left++
+			if i, err := strconv.Atoi(strings.TrimPrefix(m.Subject(), "m")); err == nil {
+				surv = append(surv, i)
+			}
 			if pd <= 0 || now.Sub(m.Date()) < pd-time.Minute {
 				young++
 			}
@@ -216,7 +222,18 @@ func child12(period string, n int) {
 		fmt.Printf("fail:retention-deleted-%d-of-%d-unexpired-messages-in-the-served-store(period=%s,left=%d-of-%d)\n", must-young, must, period, left, n)
 		return
 	}
-	fmt.Println("ok")
+	// the survivors (message numbers), the ages in seconds and the seconds served: the C12 runner compares
+	// them with what the run-loop model (Model/RetentionLoop.v) says must be there
+	sort.Ints(surv)
+	ss := make([]string, len(surv))
+	for i, v := range surv {
+		ss[i] = strconv.Itoa(v)
+	}
+	as := make([]string, n)
+	for i := 0; i < n; i++ {
+		as[i] = strconv.Itoa(int(ages[i%len(ages)] / time.Second))
+	}
+	fmt.Printf("ok S=%s A=%s T=1\n", strings.Join(ss, ","), strings.Join(as, ","))
 }
 
 type recListener struct {
